@@ -859,7 +859,60 @@ def rule_g(chk: Check, eng: Engine) -> None:
     failing_score_rule(chk, eng, "R02-g")
 
 
+def command_options_rule(chk: Check, eng: Engine, rule: str) -> None:
+    """R02-k.  The commands of the cli take the spec either from `-f` or from what `set -f` opened before.  The constraint options (`-c`,
+    `--maximize`, `--minimize`) are part of the spec the user asks for: a command that consumes them on the `-f` branch must consume them on the
+    other branch as well (or refuse) - otherwise the constraint is silently dropped and the emitted solutions violate it.  Sibling branches are
+    compared through the helpers they hand `args` to."""
+    mod = eng.module("fandango.cli.commands")
+    utils = eng.module("fandango.cli.utils")
+
+    def reads(stmts: list, depth: int = 0, seen: Optional[set] = None) -> set[str]:
+        seen = seen if seen is not None else set()
+        out: set[str] = set()
+        for st in stmts:
+            for x in ast.walk(st):
+                if isinstance(x, ast.Attribute) and isinstance(x.value, ast.Name) and x.value.id == "args" and isinstance(x.ctx, ast.Load):
+                    out.add(x.attr)
+                if isinstance(x, ast.Call) and isinstance(x.func, ast.Name) and depth < 3 and any(isinstance(a, ast.Name) and a.id == "args" for a in x.args):
+                    h = mod.functions.get(x.func.id) or utils.functions.get(x.func.id)
+                    if h is not None and h.fq not in seen:
+                        seen.add(h.fq)
+                        out |= reads(h.node.body, depth + 1, seen)  # type: ignore[attr-defined]
+        return out
+
+    n = 0
+    for f in mod.functions.values():
+        if not f.name.endswith("_command"):
+            continue
+        for i_ in walk_local(f.node):
+            if not (isinstance(i_, ast.If) and norm(i_.test) == "args.fan_files" and i_.orelse):
+                continue
+            then_r, else_r = reads(i_.body), reads(i_.orelse)
+            opts = {o for o in then_r if "constraint" in o}
+            if not opts:
+                continue
+            n += 1
+            refuses = any(isinstance(x, ast.Raise) for st in i_.orelse for x in ast.walk(st))
+            missing = sorted(opts - else_r)
+            if missing and not refuses:
+                chk.bad(rule, eng.relfile(f), i_.lineno, f.fq, f"{f.name}: without `-f` the options {missing} are neither used nor refused (the `-f` branch parses them)",
+                        "a constraint given on the command line is dropped without a word: `fuzz -c 'int(<n>) > 90'` after `set -f` prints values below 90", keyparts=f"options-dropped|{f.name}")
+            else:
+                chk.ok(rule, f.fq, i_.lineno, f"{f.name}: {sorted(opts)} are consumed with and without `-f`")
+    if n < 3:
+        raise AnalysisError(f"only {n} commands with a `-f` / default-content choice found")
+
+
 def run(chk: Check, eng: Engine) -> None:
+    chk.rule("R02-k", "a cli command consumes the constraint options (-c, --maximize, --minimize) whether the spec comes from -f or from `set -f`", floor=3)
+    command_options_rule(chk, eng, "R02-k")
+    chk.rule("R02-i", "a node installed by replace_multiple inherits the repetition tags (and the parent link) of the node it replaces: the bounds constraints count tags", floor=2)
+    from .c01 import position_bookkeeping_rule
+    position_bookkeeping_rule(chk, eng, "R02-i")
+    chk.rule("R02-j", "selector evaluation never turns an error into 'no match' (no handler without re-raise in the search classes): an unevaluable selector must fail the constraint, "
+             "not empty its combinations", floor=20)
+    cf.search_errors_surface_rule(chk, eng, "R02-j")
     chk.rule("R02-h", "scope and local variables received by a constraint / search method are passed on to every family method that takes them", floor=20)
     cf.context_forwarding_rule(chk, eng, "R02-h")
     chk.rule("R02-g", "a comparison that does not hold never scores 1.0 (interval interpretation of the scoring helper in float arithmetic)", floor=3)
@@ -892,6 +945,10 @@ _ALG = "src/fandango/evolution/algorithm.py"
 _POP = "src/fandango/evolution/population.py"
 _API = "src/fandango/api.py"
 MUTANTS = [
+    M("command-line-constraints-only-with-f", "src/fandango/cli/commands.py", "        grammar, constraints = _default_content_with_constraints(args)\n", "        grammar, constraints = DEFAULT_FAN_CONTENT\n", "R02-k", count=3),
+    M("item-selector-skips-missing-index", "src/fandango/language/search.py", "        return list(\n            map(\n                Tree,\n                [\n                    t.__getitem__(self.slices)\n                    for base in bases\n                    for t in base.get_trees()\n                ],\n            )\n        )\n",
+      "        items = []\n        for base in bases:\n            for t in base.get_trees():\n                try:\n                    items.append(t.__getitem__(self.slices))\n                except IndexError:\n                    continue\n        return list(map(Tree, items))\n", "R02-j"),
+    M("replacement-keeps-its-own-repetition-tags", "src/fandango/language/tree.py", "            new_subtree.origin_repetitions = list(self.origin_repetitions)\n", "", "R02-i"),
     M("forall-domain-without-scope", "src/fandango/constraints/forall.py", "        for container in self.search.quantify(tree, scope=scope):\n", "        for container in self.search.quantify(tree):\n", "R02-h"),
     M("implication-consequent-without-locals", "src/fandango/constraints/implication.py", "            fitness = copy(self.consequent.fitness(tree, scope, local_variables))", "            fitness = copy(self.consequent.fitness(tree, scope))", "R02-h"),
     M("base-quantify-drops-scope", "src/fandango/language/search.py", "        return self.find(tree, scope, population)\n", "        return self.find(tree)\n", "R02-h"),
